@@ -39,7 +39,7 @@ class RunTimeout(BaseException):
 class RunResult:
     __slots__ = (
         "violations", "log", "nops", "faults", "faults_eff", "probes", "states",
-        "nontrivial", "precondition_miss", "skipped", "sim_steps",
+        "nontrivial", "precondition_miss", "skipped", "sim_steps", "artifacts",
     )
 
     def __init__(self):
@@ -54,6 +54,7 @@ class RunResult:
         self.precondition_miss = 0
         self.skipped = 0
         self.sim_steps = 0     # logical time: real API calls made
+        self.artifacts = {}    # not part of the log: material for the minimiser (e.g. the text handed to the parser)
 
     def violate(self, prop, clause, signature, step, message):
         self.violations.append(
